@@ -197,6 +197,13 @@ def install():
     _installed = True
 
 
+class _NoLog(list):
+    """the operation log is not needed for schedules"""
+
+    def append(self, x):
+        pass
+
+
 OPS = ('r', 'wx', 'wy', 'rw', 'rx', 'co', 'u1', 'u2', 'cx', 'csx')
 
 
@@ -217,6 +224,17 @@ def scenario(job):
     install()
     sched.install()
     sched.S = None
+    from .. import faultfs
+    kw = dict(kw or {})
+    if kw.pop('yield_io', False) and kind == 'file':
+        # file-I/O granularity: raw reads/writes of the data file are yield points too
+        faultfs.install()
+        faultfs.reset(workdir)
+        faultfs.S.log = _NoLog()
+        faultfs.YIELD_IO = True
+    else:
+        faultfs.YIELD_IO = False
+        faultfs.S.enabled = False
     conn_name.clear()
     conn_names_by_conn.clear()
     name_of_oid.clear()
@@ -318,6 +336,7 @@ def scenario(job):
         Sc.spawn('t%d' % (i + 1), prog('t%d' % (i + 1), ops))
     outcome = Sc.go()
     sched.S = None
+    faultfs.YIELD_IO = False
     events = list(Sc.events)
     errs = {k: '%s: %s' % (type(v).__name__, str(v)[:200]) for k, v in Sc.errors.items()}
     try:
